@@ -79,10 +79,9 @@ def jobs(tier):
         # (long motions - range "huge" - are often invalid: the lazy validation queues them and the removal phase runs)
         # and a wall between start and goal keeps the planner from finishing early); in the open maps the first worker
         # that has found a solution is held back before it publishes it, so that a second one finds one as well
-        # (every 20th tree insertion is held back inside its iteration: the others then find loopLock_ taken - try_lock fails)
-        add("pSBL", "removal", range="huge", budget=300, threads=3, map=(3, 3, [1, 4, 7], 0, 2), stall=["pSBL.addMotion%20"])
-        add("pSBL", "removal", range="huge", budget=250, threads=3, map=(4, 3, [1, 5, 9], 0, 3), stall=["pSBL.addMotion%20"])
-        add("pSBL", "removal", range="huge", budget=250, threads=3, map=(3, 3, [1, 4, 7], 0, 2), stall=["pSBL.addMotion%20"])
+        add("pSBL", "removal", range="huge", budget=300, threads=3, map=(3, 3, [1, 4, 7], 0, 2))
+        add("pSBL", "removal", range="huge", budget=250, threads=3, map=(4, 3, [1, 5, 9], 0, 3))
+        add("pSBL", "removal", range="huge", budget=250, threads=3, map=(3, 3, [1, 4, 7], 0, 2))
         add("pSBL", "plain", range="small", budget=600, map=(3, 3, [], 0, 1), threads=3, stall=["pSBL.connectionPoint#1"])
         add("pSBL", "plain", range="default", budget=400, map=(2, 1, [], 0, 1), stall=["pSBL.connectionPoint#1"])
         add("pSBL", "plain", range="small", budget=500, map=(3, 3, [], 0, 1), threads=2, stall=["pSBL.connectionPoint#1"])
@@ -106,8 +105,9 @@ def jobs(tier):
         add("PRMstar", "plain", budget=400, stall=["PRM.startGoalPairValid"])
         # CForest: with and without search focusing (states are only shared between the trees without it); the second
         # tree to register its sampler is held back, so that the first one shares while samplers_ still grows
-        for f in (0, 0, 0, 1):
-            add("CForest", "focus%d" % f, focus=f, budget=rng.choice([300, 450]), stall=["CForest.addSampler#2"],
+        for f, late in ((0, True), (0, True), (0, False), (0, False), (1, False)):
+            add("CForest", "focus%d%s" % (f, "-late" if late else ""), focus=f, budget=rng.choice([350, 500]),
+                stall=["CForest.addSampler#2"] if late else [],
                 query=rng.choice(["single", "goalstates"]) if f == 0 else "single", map=MAPS[0])
         # AnytimePathShortening: its own thread polls the termination condition in a tight loop -> large budget, capped
         # log; it is held back before it initialises bestCost_ (its workers are running by then)
@@ -143,6 +143,16 @@ def record(binary, js, outdir, timeout=40):
 
     with concurrent.futures.ThreadPoolExecutor(max_workers=max(2, vlib.NCPU // 2)) as ex:
         return list(ex.map(one, range(len(js))))
+
+
+def gate(ck, msg):
+    """Vacuity gate.  A run that has already produced a verdict against the tree under test is red anyway: its gates
+    are recorded instead of raised (a changed tree may well take other paths); a green run must meet every gate."""
+    if ck.violations:
+        ck.cov.setdefault("vacuity_gates_not_met_in_red_run", []).append(msg)
+        log("[c19] vacuity gate not met (recorded, the run is red already): " + msg)
+        return
+    raise FrameworkError("vacuity gate: " + msg)
 
 
 def validate_announced(module, trace_path, timeout=2400, heap="4g"):
@@ -295,7 +305,7 @@ def planner_traces(ck, tier, binary):
         ck.set("psbl_protocol_events_seen", sorted(pseen))
         need = PSBL_PROTOCOL_SEEN if "enter" in pseen else {"enterShared", "leaveShared", "removal", "tryFail"}
         if need - pseen:
-            raise FrameworkError("vacuity gate: pSBL protocol events never observed: %s" % sorted(need - pseen))
+            gate(ck, "pSBL protocol events never observed: %s" % sorted(need - pseen))
         feats["psbl_variant"] = "sharedMutex" if "enterShared" in pseen else "pinned"
         ck.add("traces_validated_against_impl", sum(1 for r in proj if r["e"] == "Scenario"))
     # ---- planner contract on every perturbed run
@@ -340,11 +350,11 @@ def planner_traces(ck, tier, binary):
         if not any(site in sites.get(res, {}) for res, site in alt):
             missing["one of"] = sorted(alt)
     if missing:
-        raise FrameworkError("vacuity gate: hooked sites never reached (hooks missing, not built in, or scenarios too weak): %s" % missing)
+        gate(ck, "hooked sites never reached (hooks missing, not built in, or scenarios too weak): %s" % missing)
     multi = {res for (res, _s, _o), ts in threads_of.items() if len(ts) >= 2}
     lonely = [r for r in SHARED if r not in multi]
     if lonely:
-        raise FrameworkError("vacuity gate: shared resources never touched by two threads in one run: %s" % lonely)
+        gate(ck, "shared resources never touched by two threads in one run: %s" % lonely)
     feats["events"] = len(allrows)
     ck.set("planner_hook_events", len(allrows))
     ck.set("planner_sites", {k: v for k, v in sorted(sites.items()) if not k.startswith(("PTC.", "MotionValidator", "SeedGen", "Allocated"))})
